@@ -248,7 +248,9 @@ def device(chk, prog, names):
             rs = w.run(fn, [Ref(("h", "border"), (), True)], genv={"FB": FB}, state=st)
             key = "T-TRACE/ZXBorder::new_frame/changed=%d,completed=%d" % (changed, block)
             if len(rs) != 1 or rs[0].outcome != "return":
-                chk.fail(key, "paths: %s" % [(r.outcome, r.detail) for r in rs][:3])
+                chk.fail(key, "new_frame branches on something other than the two per-frame flags (%d paths; fill_to calls per path: %s; outcomes %s): "
+                         "every frame start must take the one documented course" %
+                         (len(rs), [len([x for x in r.notes if x[0] == "fill"]) for r in rs][:6], sorted(set(r.outcome for r in rs))))
                 continue
             r = rs[0]
             fills = [x for x in r.notes if x[0] == "fill"]
